@@ -489,6 +489,15 @@ def _evaluated(ctx, K):
             r = parse2(hdr)
             ctx.check(isinstance(r, tuple) and r[:1] == ("raised",), "parse/v2-invalid-headers-refused", qp2 + f" | <{lab}>",
                       f"parse() of an invalid v2 header ({lab}) gives {r!r}; an InvalidProxyHeader (or subclass) is required so that the wrapper closes the connection")
+        # every address family has a fixed-size address block: a header that declares / carries fewer bytes than that is malformed, whichever family
+        for fam_name, fam_byte, size in (("INET/STREAM", 0x11, 12), ("INET/DGRAM", 0x12, 12), ("INET6/STREAM", 0x21, 36), ("INET6/DGRAM", 0x22, 36),
+                                         ("UNIX/STREAM", 0x31, 216), ("UNIX/DGRAM", 0x32, 216)):
+            for cut in sorted({0, 1, size // 2, size - 1}):
+                hdr = _SIG + b"\x21" + bytes([fam_byte]) + struct.pack("!H", cut) + (b"/p" + bytes(size))[:cut]
+                r = parse2(hdr)
+                ctx.check(isinstance(r, tuple) and r[:1] == ("raised",), "parse/v2-invalid-headers-refused", qp2 + f" | <{fam_name} address block of {cut} instead of {size} bytes>",
+                          f"parse() of a v2 {fam_name} header whose address block has only {cut} of the {size} bytes the family requires gives {r!r}; an "
+                          "InvalidProxyHeader (or subclass) is required so that the wrapper closes the connection and delivers nothing")
     return kmin
 
 
@@ -807,6 +816,48 @@ def _check(ctx):
                 src(local_def(fp2, ast.Name(id=fmtname))) == "cls.ADDRESSFORMATS[familyProto]"
         ctx.check(ok, "v2table/slice-width", Q + "_v2parser.V2Parser.parse | <address block>",
                   "the address block is not line[16 : 16 + calcsize(format)] unpacked with that same format chosen by the family|protocol byte")
+    with ctx.section("V2Parser.parse address block length"):
+        # every way the fields are taken out of the address block must be able to refuse a block that is too short: struct.unpack with the family's
+        # fixed-size format inside convertError(struct.error, ...) / try-except struct.error, or slicing behind a test of the block's length
+        fp2 = _F(ctx, V2, "V2Parser.parse")
+        g2 = ctx.cfg(fp2)
+        blocks = {src(x.targets[0]) for x in walk_local(fp2) if isinstance(x, ast.Assign) and len(x.targets) == 1 and isinstance(x.targets[0], ast.Name)
+                  and slice_parts(x.value) and "calcsize" in src(x.value)}
+        if not blocks:
+            ctx.note("parse/v2-address-block-length-validated: the address block variable of V2Parser.parse was not recognised; clause left to "
+                     "parse/v2-invalid-headers-refused")
+
+        def _guarded(node):
+            p_ = getattr(node, "_parent", None)
+            while p_ is not None and p_ is not fp2:
+                if isinstance(p_, ast.With) and any("convertError" in src(i.context_expr) and "struct.error" in src(i.context_expr) for i in p_.items):
+                    return True
+                if isinstance(p_, ast.Try) and any(h.type is None or "struct.error" in src(h.type) or src(h.type) in ("Exception", "BaseException") for h in p_.handlers) \
+                        and any(node is y for b_ in p_.body for y in ast.walk(b_)):
+                    return True
+                p_ = getattr(p_, "_parent", None)
+            return False
+        nuse = 0
+        for blk in sorted(blocks):
+            for st_ in [x for x in walk_local(fp2) if isinstance(x, ast.stmt) and not isinstance(x, (ast.If, ast.With, ast.Try, ast.For, ast.While))]:
+                unpacks = [c_ for c_ in ast.walk(st_) if isinstance(c_, ast.Call) and call_name(c_) in ("struct.unpack", "unpack", "struct.unpack_from", "unpack_from")
+                           and len(c_.args) >= 2 and src(c_.args[1]) == blk]
+                slices = [x for x in ast.walk(st_) if isinstance(x, ast.Subscript) and src(x.value) == blk]
+                for c_ in unpacks:
+                    nuse += 1
+                    ctx.check(_guarded(c_), "parse/v2-address-block-length-validated", ctx.construct(Q + "_v2parser.V2Parser.parse", c_),
+                              "struct.unpack of the address block is not inside convertError(struct.error, ...): a truncated block escapes as struct.error instead of "
+                              "an InvalidProxyHeader")
+                for x in slices:
+                    nuse += 1
+                    ids = g2.ids_of(st_)
+                    tested = any(f"len({blk})" in src(resolve_locals(fp2, g2.node(t).ast)) for n_ in ids for t, _lab in g2.edge_guards(n_))
+                    ctx.check(tested, "parse/v2-address-block-length-validated", ctx.construct(Q + "_v2parser.V2Parser.parse", st_),
+                              f"fields are cut out of the address block by slicing ({src(x)}) with no test of the block's length in front: slicing never fails, so a "
+                              "header whose address block is shorter than the family's fixed size is accepted (empty / truncated addresses, following bytes delivered) "
+                              "- the other families refuse it through struct.unpack under convertError")
+        if blocks and not nuse:
+            ctx.note("parse/v2-address-block-length-validated: no use of the address block found; clause left to parse/v2-invalid-headers-refused")
     with ctx.section("protocol constants agree"):
         ctx.need(bool(K), "V1Parser / V2Parser constants")
         # version constants agree between wrapper sniff and parser
@@ -883,6 +934,9 @@ _SNIFF_FIXED = ("            data = self._pending + data\n            self._pend
                 "                self._pending = data\n                return None\n"
                 "            else:\n                self.loseConnection()\n                return None\n")
 MUTANTS = [
+    Mutant("v2-unix-paths-cut-in-halves-without-length-validation", V2, '            with convertError(struct.error, MissingAddressData):\n                source, dest = struct.unpack(addressFormat, addrInfo)\n', '            half = struct.calcsize(addressFormat) // 2\n            source, dest = addrInfo[:half], addrInfo[half:]\n', expect_rule="parse/v2-address-block-length-validated"),
+    Mutant("v2-unix-paths-cut-in-halves-truncated-header-accepted", V2, '            with convertError(struct.error, MissingAddressData):\n                source, dest = struct.unpack(addressFormat, addrInfo)\n', '            half = struct.calcsize(addressFormat) // 2\n            source, dest = addrInfo[:half], addrInfo[half:]\n', expect_rule="parse/v2-invalid-headers-refused"),
+    Mutant("v2-inet-unpack-outside-the-error-conversion", V2, '        with convertError(struct.error, MissingAddressData):\n            info = struct.unpack(addressFormat, addrInfo)\n            source, dest, sPort, dPort = info\n', '        info = struct.unpack(addressFormat, addrInfo)\n        source, dest, sPort, dPort = info\n', expect_rule="parse/v2-address-block-length-validated"),
     Mutant("sniff-by-signature-waits-on-garbage", W, '            if (\n                len(data) >= 16\n                and data[:12] == V2Parser.PREFIX\n                and ord(data[12:13]) & 0b11110000 == 0x20\n            ):\n                self._parser = parser = V2Parser()\n            elif len(data) >= 8 and data[:5] == V1Parser.PROXYSTR:\n                self._parser = parser = V1Parser()\n            elif (len(data) < 16 and data[:12] == V2Parser.PREFIX[: len(data)]) or (\n                len(data) < 8 and data[:5] == V1Parser.PROXYSTR[: len(data)]\n            ):\n                # So far this is the beginning of a PROXY protocol signature,\n                # but the segment was too short to decide; wait for more.\n                self._undecided = data\n                return None\n            else:\n                self.loseConnection()\n                return None\n\n', '            v2Sig, v1Sig = V2Parser.PREFIX, V1Parser.PROXYSTR\n            received = len(data)\n            undecidable = False\n            if data.startswith(v2Sig):\n                if received < 16:\n                    undecidable = True\n                elif ord(data[12:13]) & 0b11110000 == 0x20:\n                    parser = V2Parser()\n            elif data.startswith(v1Sig):\n                if received < 8:\n                    undecidable = True\n                else:\n                    parser = V1Parser()\n            else:\n                undecidable = True\n            if undecidable:\n                self._undecided = data\n                return None\n            if parser is None:\n                self.loseConnection()\n                return None\n            self._parser = parser\n\n', expect_rule="sniff/"),
     Mutant("sniff-by-signature-refuses-a-short-v1-beginning", W, '            if (\n                len(data) >= 16\n                and data[:12] == V2Parser.PREFIX\n                and ord(data[12:13]) & 0b11110000 == 0x20\n            ):\n                self._parser = parser = V2Parser()\n            elif len(data) >= 8 and data[:5] == V1Parser.PROXYSTR:\n                self._parser = parser = V1Parser()\n            elif (len(data) < 16 and data[:12] == V2Parser.PREFIX[: len(data)]) or (\n                len(data) < 8 and data[:5] == V1Parser.PROXYSTR[: len(data)]\n            ):\n                # So far this is the beginning of a PROXY protocol signature,\n                # but the segment was too short to decide; wait for more.\n                self._undecided = data\n                return None\n            else:\n                self.loseConnection()\n                return None\n\n', '            v2Sig, v1Sig = V2Parser.PREFIX, V1Parser.PROXYSTR\n            received = len(data)\n            undecidable = False\n            if data.startswith(v2Sig):\n                if received < 16:\n                    undecidable = True\n                elif ord(data[12:13]) & 0b11110000 == 0x20:\n                    parser = V2Parser()\n            elif data.startswith(v1Sig):\n                if received < 8:\n                    undecidable = True\n                else:\n                    parser = V1Parser()\n            else:\n                undecidable = v2Sig.startswith(data)\n            if undecidable:\n                self._undecided = data\n                return None\n            if parser is None:\n                self.loseConnection()\n                return None\n            self._parser = parser\n\n', expect_rule="sniff/"),
     Mutant("v2-feed-length-read-little-endian", V2, '        size = struct.unpack("!H", self.buffer[14:16])[0] + 16\n        if len(self.buffer) < size:\n            return (None, None)\n\n        header, remaining = self.buffer[:size], self.buffer[size:]\n        self.buffer = b""\n        info = self.parse(header)\n        return (info, remaining)\n', '        have = len(self.buffer)\n        size = 16 + int.from_bytes(self.buffer[14:16], "little")\n        if size <= have:\n            header = self.buffer[:size]\n            remaining = self.buffer[size:]\n            self.buffer = b""\n            return (self.parse(header), remaining)\n        return (None, None)\n', expect_rule="v2feed/"),
@@ -964,6 +1018,7 @@ MUTANTS = [
            expect_rule="v1table/allowed-protocols"),
 ]
 SILENT = [
+    Silent("v2-unix-paths-by-slicing-behind-a-length-test", V2, '            with convertError(struct.error, MissingAddressData):\n                source, dest = struct.unpack(addressFormat, addrInfo)\n', '            half = struct.calcsize(addressFormat) // 2\n            if len(addrInfo) < 2 * half:\n                raise MissingAddressData()\n            source, dest = addrInfo[:half], addrInfo[half:]\n'),
     Silent("sniff-grouped-by-signature-with-one-wait-site", W, '            if (\n                len(data) >= 16\n                and data[:12] == V2Parser.PREFIX\n                and ord(data[12:13]) & 0b11110000 == 0x20\n            ):\n                self._parser = parser = V2Parser()\n            elif len(data) >= 8 and data[:5] == V1Parser.PROXYSTR:\n                self._parser = parser = V1Parser()\n            elif (len(data) < 16 and data[:12] == V2Parser.PREFIX[: len(data)]) or (\n                len(data) < 8 and data[:5] == V1Parser.PROXYSTR[: len(data)]\n            ):\n                # So far this is the beginning of a PROXY protocol signature,\n                # but the segment was too short to decide; wait for more.\n                self._undecided = data\n                return None\n            else:\n                self.loseConnection()\n                return None\n\n', '            v2Sig, v1Sig = V2Parser.PREFIX, V1Parser.PROXYSTR\n            received = len(data)\n            undecidable = False\n            if data.startswith(v2Sig):\n                if received < 16:\n                    undecidable = True\n                elif ord(data[12:13]) & 0b11110000 == 0x20:\n                    parser = V2Parser()\n            elif data.startswith(v1Sig):\n                if received < 8:\n                    undecidable = True\n                else:\n                    parser = V1Parser()\n            else:\n                undecidable = v2Sig.startswith(data) or v1Sig.startswith(data)\n            if undecidable:\n                self._undecided = data\n                return None\n            if parser is None:\n                self.loseConnection()\n                return None\n            self._parser = parser\n\n'),
     Silent("v2-feed-length-by-int-from-bytes-positive-completeness-test", V2, '        size = struct.unpack("!H", self.buffer[14:16])[0] + 16\n        if len(self.buffer) < size:\n            return (None, None)\n\n        header, remaining = self.buffer[:size], self.buffer[size:]\n        self.buffer = b""\n        info = self.parse(header)\n        return (info, remaining)\n', '        have = len(self.buffer)\n        size = 16 + int.from_bytes(self.buffer[14:16], "big")\n        if size <= have:\n            header = self.buffer[:size]\n            remaining = self.buffer[size:]\n            self.buffer = b""\n            return (self.parse(header), remaining)\n        return (None, None)\n'),
     Silent("v1-feed-by-find-and-offset-slicing", V1, '        if len(self.buffer) > 107 and self.NEWLINE not in self.buffer:\n            raise InvalidProxyHeader()\n        lines = (self.buffer).split(self.NEWLINE, 1)\n        if not len(lines) > 1:\n            return (None, None)\n        self.buffer = b""\n        remaining = lines.pop()\n        header = lines.pop()\n        info = self.parse(header)\n        return (info, remaining)\n', '        at = self.buffer.find(self.NEWLINE)\n        if at < 0:\n            if 107 < len(self.buffer):\n                raise InvalidProxyHeader()\n            return (None, None)\n        header = self.buffer[:at]\n        remaining = self.buffer[at + len(self.NEWLINE) :]\n        self.buffer = b""\n        return (self.parse(header), remaining)\n'),
